@@ -1,11 +1,23 @@
 /-
-  Dataclass-defined payloads (ipv8/messaging/payload_dataclass.py): the class-level conversion state.
+  Dataclass-defined payloads (ipv8/messaging/payload_dataclass.py + lazy_payload.vp_compile): the class-level
+  conversion state, as the code behaves today (including the known defect on the receive-first path).
 
-  `DataClassPayload.__new__` / `DataClassPayloadWID.__new__` call `convert_to_payload(cls)` on EVERY instantiation; that
-  stores `names` / `format_list` (computed from ALL dataclass fields, inherited ones first) in the class's own namespace and
-  compiles it.  Reading `cls.names` goes through inheritance: a class that was never converted sees its parent's value, and
-  the root (`VariablePayload.names`) is the empty list.  Classes are numbered; `all c` is the full field list of class `c`,
-  `parent c` its dataclass-payload base class.
+  * `DataClassPayload.__new__` / `DataClassPayloadWID.__new__` call `convert_to_payload(cls)` on EVERY instantiation; that
+    stores `names` / `format_list` (all dataclass fields, inherited ones first) in the class's OWN namespace and
+    `vp_compile`s it; `from_unpack_list` becomes a method BOUND to the class that was compiled.
+  * Reading `cls.names` / `cls.format_list` / `cls.from_unpack_list` goes through inheritance: a class that was never
+    converted sees its nearest converted ancestor's values; the root (`VariablePayload`) has `names = []`,
+    `format_list = []` and the generic `from_unpack_list` (`cls(*args)`).
+  * `Serializer.unpack_serializable(cls, data)` therefore
+      - on a class with NO converted ancestor reads nothing (`format_list == []`) and calls `cls()`: `__new__` converts the
+        class, then the dataclass `__init__` raises TypeError (missing arguments) unless the class has no fields;
+      - on an unconverted class WITH a converted ancestor `a` decodes `a`'s fields and returns an instance of `a`
+        (the bound `from_unpack_list` of `a`); the class itself stays unconverted;
+      - on a converted class decodes all its fields and returns an instance of it.
+
+  Classes are numbered; `all c` is the full field list of class `c`, `parent c` its dataclass-payload base class
+  (the harness compares `cls.names` of every class of a hierarchy and the outcome of every decode with this model after
+  every step: driver op `dc`).
 -/
 namespace Ipv8.C02.Dc
 
@@ -13,45 +25,121 @@ abbrev State := Nat → Option (List String)
 
 def init : State := fun _ => none
 
+inductive Op where
+  | inst (c : Nat)    -- `cls(...)`
+  | recv (c : Nat)    -- `unpack_serializable(cls, …)`
+deriving Repr, DecidableEq
+
 /-- `cls(...)`: convert_to_payload runs unconditionally -/
 def instantiate (all : Nat → List String) (st : State) (c : Nat) : State :=
   fun d => if d = c then some (all c) else st d
 
-/-- attribute lookup `cls.names` through the inheritance chain (fuel = chain length bound) -/
-def lookupNames (parent : Nat → Option Nat) (st : State) : Nat → Nat → List String
-  | 0, _ => []
+/-- nearest class in the inheritance chain (starting at `c` itself) that has been converted -/
+def owner (parent : Nat → Option Nat) (st : State) : Nat → Nat → Option Nat
+  | 0, _ => none
   | fuel+1, c =>
     match st c with
-    | some ns => ns
+    | some _ => some c
     | none =>
       match parent c with
-      | some p => lookupNames parent st fuel p
-      | none => []
+      | some p => owner parent st fuel p
+      | none => none
 
-def run (all : Nat → List String) (h : List Nat) : State := h.foldl (instantiate all) init
+/-- attribute lookup `cls.names` through the inheritance chain (fuel = chain length bound) -/
+def lookupNames (parent : Nat → Option Nat) (st : State) (fuel c : Nat) : List String :=
+  match owner parent st fuel c with
+  | some a => (st a).getD []
+  | none => []
+
+/-- what `unpack_serializable(cls, encoding of an instance of cls)` yields: `none` = raises, `some a` = an instance of class `a` -/
+def recvResult (all : Nat → List String) (parent : Nat → Option Nat) (st : State) (fuel c : Nat) : Option Nat :=
+  match owner parent st fuel c with
+  | some a => some a
+  | none => if (all c).isEmpty then some c else none
+
+def step (all : Nat → List String) (parent : Nat → Option Nat) (fuel : Nat) (st : State) : Op → State
+  | .inst c => instantiate all st c
+  | .recv c =>
+    match owner parent st fuel c with
+    | some a => instantiate all st a          -- `a(...)` is constructed: `a` is (re)converted, `c` is not
+    | none => instantiate all st c            -- `cls()` reaches `__new__` (conversion) before `__init__` raises
+
+def run (all : Nat → List String) (parent : Nat → Option Nat) (fuel : Nat) (ops : List Op) : State :=
+  ops.foldl (step all parent fuel) init
 
 /-- the variant "convert only on first use, detected by `if not cls.names`" (NOT what the code does; kept to show that the
     model distinguishes it: see the example in Props.lean) -/
 def instantiateLazy (all : Nat → List String) (parent : Nat → Option Nat) (fuel : Nat) (st : State) (c : Nat) : State :=
   if (lookupNames parent st fuel c).isEmpty then instantiate all st c else st
 
-theorem foldl_keeps (all : Nat → List String) (h : List Nat) (st : State) (c : Nat)
-    (hc : c ∈ h ∨ st c = some (all c)) : (h.foldl (instantiate all) st) c = some (all c) := by
-  induction h generalizing st with
+/-- every reachable state stores, for a converted class, exactly its own full field list -/
+def Good (all : Nat → List String) (st : State) : Prop := ∀ d ns, st d = some ns → ns = all d
+
+theorem good_init (all : Nat → List String) : Good all init := by
+  intro d ns h; simp [init] at h
+
+theorem good_instantiate {all : Nat → List String} {st : State} (hg : Good all st) (c : Nat) :
+    Good all (instantiate all st c) := by
+  intro d ns h
+  simp only [instantiate] at h
+  split at h
+  · rename_i hd; cases h; rw [hd]
+  · exact hg d ns h
+
+theorem good_step {all : Nat → List String} {parent : Nat → Option Nat} {fuel : Nat} {st : State}
+    (hg : Good all st) (op : Op) : Good all (step all parent fuel st op) := by
+  cases op with
+  | inst c => exact good_instantiate hg c
+  | recv c =>
+    simp only [step]
+    cases owner parent st fuel c <;> exact good_instantiate hg _
+
+theorem keeps_instantiate {all : Nat → List String} {st : State} {c : Nat} (h : st c = some (all c)) (d : Nat) :
+    (instantiate all st d) c = some (all c) := by
+  simp only [instantiate]
+  split
+  · rename_i hcd; rw [hcd]
+  · exact h
+
+theorem keeps_step {all : Nat → List String} {parent : Nat → Option Nat} {fuel : Nat} {st : State} {c : Nat}
+    (h : st c = some (all c)) (op : Op) : (step all parent fuel st op) c = some (all c) := by
+  cases op with
+  | inst d => exact keeps_instantiate h d
+  | recv d =>
+    simp only [step]
+    cases owner parent st fuel d <;> exact keeps_instantiate h _
+
+theorem foldl_keeps (all : Nat → List String) (parent : Nat → Option Nat) (fuel : Nat) (ops : List Op) (st : State) (c : Nat)
+    (hc : Op.inst c ∈ ops ∨ st c = some (all c)) : (ops.foldl (step all parent fuel) st) c = some (all c) := by
+  induction ops generalizing st with
   | nil =>
     rcases hc with hc | hc
     · cases hc
     · simpa using hc
-  | cons d ds ih =>
+  | cons o os ih =>
     simp only [List.foldl_cons]
     apply ih
-    by_cases hdc : c = d
-    · right; subst hdc; simp [instantiate]
-    · rcases hc with hc | hc
-      · left
-        rcases List.mem_cons.mp hc with h1 | h1
-        · exact absurd h1 hdc
-        · exact h1
-      · right; simp [instantiate, hdc, hc]
+    rcases hc with hc | hc
+    · rcases List.mem_cons.mp hc with h1 | h1
+      · right; subst h1; simp [step, instantiate]
+      · left; exact h1
+    · right; exact keeps_step hc o
+
+/-! ### container type of sequence fields
+
+  `type_map` sends `list[T]`, `tuple[T]` and `set[T]` to the same array / payload-list format; the packers decode a Python
+  `list` and nothing converts it back to the annotated container. -/
+
+inductive Container where
+  | list | tuple | set
+deriving Repr, DecidableEq
+
+def Container.ofString : String → Option Container
+  | "list" => some .list | "tuple" => some .tuple | "set" => some .set | _ => none
+def Container.toString : Container → String
+  | .list => "list" | .tuple => "tuple" | .set => "set"
+
+/-- container type of the decoded field for a field annotated with the given container -/
+def decodedContainer : Container → Container := fun _ => .list
 
 end Ipv8.C02.Dc
